@@ -53,3 +53,10 @@ Lemma pinned_reset_keeps_count :
   acount (reset cfg_p (run cfg_p (init_state cfg_p) [OAlloc 256]) false) = 1 /\
   acount (reset cfg_f (run cfg_f (init_state cfg_f) [OAlloc 256]) false) = 0.
 Proof. vm_compute. split; reflexivity. Qed.
+
+(* query of the padding granule (block base): the pinned allocator answers Ok with a 64-byte "span" at offset 0 *)
+Lemma pinned_query_padding :
+  query cfg_p (run cfg_p (init_state cfg_p) [OAlloc 100]) 0 0 = RQuery Ok 0 0 64 /\
+  query cfg_f (run cfg_f (init_state cfg_f) [OAlloc 100]) 0 0 = RQuery InvalidArgument 0 0 0 /\
+  query cfg_f (run cfg_f (init_state cfg_f) [OAlloc 100]) 0 100 = RQuery Ok 0 64 128.
+Proof. vm_compute. repeat split; reflexivity. Qed.
